@@ -248,6 +248,8 @@ class Pool:
         if op == 'observe':
             x.hash; x.to_boc(); x.to_boc(True, True, True); hash(x); repr(x)
             return U
+        if op == 'parse_as':
+            return self._parse_as(x, c)
         if op == 'order':
             d = x.order() if c.get('via') != 'explicit' else x.order({})
             ids = [self.cell_id(k) for k in d]
@@ -259,6 +261,55 @@ class Pool:
                 d.clear()
             return {'ids': ids}
         raise ValueError(op)
+
+    def _parse_as(self, cell, c):
+        """run one of the library's parsers over a live cell and READ what it returned (value slices are consumed to the end)"""
+        kind = c['as']
+        drain = lambda sl: sl.load_bits(len(sl.bits)) if hasattr(sl, 'load_bits') else None
+        if kind == 'dict':
+            from pytoniq_core.boc.hashmap.hashmap import HashMap
+            d = HashMap.parse(cell.begin_parse(), c['w'])
+            for v in (d or {}).values():
+                drain(v)
+            d2 = cell.begin_parse().load_hashmap(c['w'])
+            return {'n': len(d or {}), 'n2': len(d2 or {})}
+        if kind == 'dict_via_holder':
+            sl = Builder().store_dict(cell).end_cell().begin_parse()
+            a = sl.preload_dict(c['w'])
+            b = sl.load_dict(c['w'])
+            for v in list((a or {}).values()) + list((b or {}).values()):
+                drain(v)
+            return {'n': len(a or {}), 'n2': len(b or {})}
+        if kind == 'dict_aug':
+            from pytoniq_core.boc.hashmap.parse import parse_hashmap_aug
+            r = parse_hashmap_aug(cell.begin_parse(), c['w'], lambda sl: sl.load_bits(len(sl.bits)), lambda sl: sl.load_bits(min(4, len(sl.bits))))
+            return {'n': len(r[0]) if r else 0, 'n2': 0}
+        if kind == 'message':
+            from pytoniq_core.tlb.transaction import MessageAny
+            m = MessageAny.deserialize(cell.begin_parse())
+            drain(m.body.begin_parse())
+            return {'n': 1, 'n2': 0}
+        if kind == 'account':
+            from pytoniq_core.tlb.account import Account
+            Account.deserialize(cell.begin_parse())
+            return {'n': 1, 'n2': 0}
+        if kind == 'stateinit':
+            from pytoniq_core.tlb.account import StateInit
+            StateInit.deserialize(cell.begin_parse())
+            return {'n': 1, 'n2': 0}
+        if kind == 'vmstack':
+            from pytoniq_core.tlb.vm_stack import VmStack
+            VmStack.deserialize(cell.begin_parse())
+            return {'n': 1, 'n2': 0}
+        raise ValueError(kind)
+
+    def adopt_tree(self, cell):
+        """register a cell built outside the pool WITH everything it references (children get their own ids)"""
+        if self.dead:
+            return 0
+        i = self.cell_id(cell)
+        self.finish({'op': 'call', 'call': {'op': 'adopt', 'new': i}, 'tags': [], 'out': {'res': {'new': i}}})
+        return i
 
     def _read(self, s, op, c):
         w = c['what']
